@@ -113,3 +113,6 @@ PLAN["C07"]["thorough"] = PLAN["C07"]["thorough"] + ["conc"]
 SUITES["stagger"] = dict(mc="MC_Seq")
 PLAN["C13"]["quick"] = PLAN["C13"]["quick"] + ["stagger"]
 PLAN["C13"]["thorough"] = PLAN["C13"]["thorough"] + ["stagger"]
+
+PLAN["C04"]["quick"] = PLAN["C04"]["quick"] + ["conc"]
+PLAN["C04"]["thorough"] = PLAN["C04"]["thorough"] + ["conc"]
